@@ -15,7 +15,7 @@ RULE = (
     "basis A_IJ0, joint point r_OJ0 and angle0, followed by up to 300 operations: rotate body 2 about the joint axis "
     "by an increment in (-pi/2, pi/2) (increments are drawn with a persistent sign so that several full turns in "
     "both directions occur), move both bodies by a common rigid motion, rescale a quaternion (non-unit), query the "
-    "angle, query twice, query the angle rate with random velocities, reset. Model: angle0 + sum of increments "
+    "angle, query twice, query the angle rate with random velocities, reset, re-assemble the system. Model: angle0 + sum of increments "
     "(after reset: angle0 + the accumulated rotation wrapped to [-pi/2, 3pi/2), the initial tracking state). "
     "Non-trivial: |accumulated rotation| exceeded 2 pi and the direction of rotation changed at least once."
 )
@@ -53,7 +53,7 @@ def _history(draw):
     ops = []
     sign = 1.0
     for _ in range(n):
-        kind = draw(st.sampled_from(["rot", "rot", "rot", "rot", "rot", "rot", "flip", "move", "rescale", "twice", "rate", "reset"]))
+        kind = draw(st.sampled_from(["rot", "rot", "rot", "rot", "rot", "rot", "flip", "move", "rescale", "twice", "rate", "reset", "reassemble"]))
         if kind == "flip":
             sign = -sign
             kind = "rot"
@@ -188,6 +188,15 @@ def check(spec):
             res.ok()
             if abs(got - want) > 1e-10 * (1 + abs(want)) or got != got2:
                 res.fail("rate_is_relative_angular_velocity_about_axis", site, abs(got - want), feats, f"step {i}")
+                return res
+        elif o == "reassemble":
+            # assembling the system again (as System.set_new_initial_state does) must not disturb the tracking
+            sysbuild.assemble(system)
+            got = query()
+            res.ok()
+            if abs(got - model) > 1e-9 * (1 + abs(model)):
+                res.fail("reassembly_keeps_the_angle", site, abs(got - model), feats,
+                         f"step {i}: reported {got:.9f}, model {model:.9f}")
                 return res
         elif o == "reset":
             joint.reset()
